@@ -222,6 +222,10 @@ func causes(n influxql.Node) []string {
 			} else if x.Val%time.Microsecond != 0 {
 				set["duration-sub-microsecond"] = true
 			}
+		case *influxql.RegexLiteral:
+			if x != nil && x.Val != nil && strings.Contains(x.Val.String(), "\n") {
+				set["regex-with-newline"] = true
+			}
 		case *influxql.TimeLiteral:
 			set["time-literal"] = true
 		case *influxql.InCondition:
@@ -290,8 +294,9 @@ func opCount(e influxql.Expr) int {
 // reporter wraps vf.Ctx with per-signature throttling (a worker keeps at most 50
 // violations; frequent known classes must not crowd out new ones).
 type reporter struct {
-	c    *vf.Ctx
-	seen map[string]int
+	c     *vf.Ctx
+	seen  map[string]int
+	known int // violations that matched a known finding (parent / replay mode only)
 }
 
 func (r *reporter) violation(sig, what string, w any) {
@@ -300,7 +305,9 @@ func (r *reporter) violation(sig, what string, w any) {
 	if r.seen[sig] > 2 {
 		return
 	}
-	r.c.Violation(sig, what, w)
+	if r.c.Violation(sig, what, w) {
+		r.known++
+	}
 }
 
 // roundTripExpr is the printer/parser oracle: the tree e, printed with String() and parsed
@@ -369,10 +376,8 @@ func (r *reporter) judgeExpr(prefix, stage string, e, e2 influxql.Expr, err erro
 		return
 	}
 	cs := causes(e)
-	if err != nil && strings.Contains(err.Error(), "invalid duration") && strings.Contains(strings.Join(cs, "+"), "duration-minint64") {
-		// constant folding overflowed (e.g. 307ns * 9223372036854775807.0): the literal prints as
-		// -9223372036854775808ns, whose magnitude ParseDuration cannot hold
-		r.violation(prefix+":duration-literal-minint64-unparseable", fmt.Sprintf("%s: tree sent as %q %s", stage, clip(printed), observed), tc)
+	if sc := specialClass(e, err); sc != "" {
+		r.violation(prefix+":"+sc, fmt.Sprintf("%s: tree sent as %q %s", stage, clip(printed), observed), tc)
 		return
 	}
 	if err != nil {
@@ -934,4 +939,25 @@ func shipField(e influxql.Expr) (got influxql.Expr, err error) {
 		return nil, fmt.Errorf("panic: %v", p)
 	}
 	return got, err
+}
+
+// specialClass names two rare, individually triaged reasons for a text that the receiving
+// parser rejects:
+//   - constant folding overflowed (307ns * 9223372036854775807.0) and left a DurationLiteral
+//     of MinInt64; it prints as -9223372036854775808ns, whose magnitude ParseDuration cannot hold;
+//   - a regular expression holding a raw line break (the yacc scanner accepts one inside
+//     /.../, e.g. when it mistakes "\\/" for an escaped slash and reads on to the next '/');
+//     ScanRegex on the receiving side refuses "delimited text contains new line".
+func specialClass(e influxql.Expr, err error) string {
+	if err == nil || e == nil {
+		return ""
+	}
+	cs := "+" + strings.Join(causes(e), "+") + "+"
+	switch {
+	case strings.Contains(err.Error(), "invalid duration") && strings.Contains(cs, "+duration-minint64+"):
+		return "duration-literal-minint64-unparseable"
+	case strings.Contains(err.Error(), "bad regex") && strings.Contains(cs, "+regex-with-newline+"):
+		return "regex-literal-with-newline-unparseable"
+	}
+	return ""
 }
